@@ -503,6 +503,31 @@ func (fr *frame) syntacticModel(st *State, call *ast.CallExpr, sel *ast.Selector
 		case "(*sync.Mutex).Unlock", "(*sync.RWMutex).Unlock", "(*sync.RWMutex).RUnlock":
 			fr.lockOp(st, sel.X, false, full == "(*sync.RWMutex).RUnlock")
 			return nil, true
+		case "(*sync.Once).Do":
+			// sync.Once: the function runs iff this is the first Do on this Once (ghost flag <location>#once)
+			lv := fr.lvalueOf(st, sel.X)
+			if lv == nil || (lv.kind != lvHeap && lv.kind != lvElem) {
+				panic(unsupported("sync.Once that is not a heap field"))
+			}
+			cls := lv.prefix + "#once"
+			done := st.loadLeaf(cls, SBool, lv.ref)
+			fv := fr.eval(st, call.Args[0])
+			sub := st.clone()
+			sub.assume(Not(done))
+			if !sub.dead {
+				if fv.K == VFunc && fv.Fn != nil && fv.Fn.Fn != nil {
+					fr.callFunc(sub, call, fv.Fn.Fn, fv.Fn.Recv, nil)
+				} else if fv.K == VFunc && fv.Fn != nil && fv.Fn.Lit != nil {
+					fr.callLiteral(sub, fv, fv.Fn.Lit.(*ast.FuncLit), nil)
+				} else {
+					// function value of unknown identity: contract by its type / name
+					fr.callOnceArg(sub, call, fv)
+				}
+				fr.absorbConditional(st, sub, Not(done))
+			}
+			st.storeLeaf(cls, SBool, lv.ref, TTrue)
+			fr.fc.reg.trustedUsed["sync.Once runs its argument exactly once (ghost flag per Once)"] = true
+			return nil, true
 		case "(*sync/atomic.Value).Store", "(*sync/atomic.Value).Load":
 			// atomic.Value is a one-field box {v any}; Store/Load are linearizable accesses to it
 			lv := fr.lvalueOf(st, sel.X)
@@ -1133,4 +1158,26 @@ func (fr *frame) dispatchIface(st *State, call *ast.CallExpr, fn *types.Func, re
 	merged.results = nil
 	*st = *merged
 	return res
+}
+
+// callOnceArg: the argument of Once.Do is a function value read from a field (e.g. l.release, l.cancel):
+// use the contract keyed "<Type>.<field>.call" of the struct that holds it, else fail loudly.
+func (fr *frame) callOnceArg(st *State, call *ast.CallExpr, fv *Value) {
+	if sel, ok := unparen(call.Args[0]).(*ast.SelectorExpr); ok {
+		if s, ok := fr.info.Selections[sel]; ok && s.Kind() == types.FieldVal {
+			t := fr.typeOf(sel.X)
+			if p, ok := t.Underlying().(*types.Pointer); ok {
+				t = p.Elem()
+			}
+			if n, ok := t.(*types.Named); ok {
+				key := n.Obj().Pkg().Path() + "." + n.Obj().Name() + "." + sel.Sel.Name + ".call"
+				if c := fr.fc.reg.contracts[key]; c != nil {
+					sig := s.Obj().Type().Underlying().(*types.Signature)
+					fr.applyContractSig(st, call, n.Obj().Name()+"."+sel.Sel.Name, sig, fr.fc.reg.pkgs[n.Obj().Pkg().Path()], c, fr.eval(st, sel.X), nil)
+					return
+				}
+			}
+		}
+	}
+	panic(unsupported("sync.Once.Do with a function value without contract"))
 }
